@@ -388,6 +388,23 @@ func (h *harness) v4(s string, near bool) {
 		if baseNone {
 			r.Count("v4:no-base-impact")
 		}
+		// the score by the FIRST algorithm (independent exact evaluation)
+		if ks != "nan" {
+			sp, lib := specV4(v, true), specV4(v, false)
+			same := func(i spec4Info) bool { return k == i.Score10 || (i.Tie && k == i.Score10-1) }
+			switch {
+			case same(sp):
+			case same(lib):
+				// listed finding: the Modified Base metrics are not read
+				r.KnownSeen(kV4Mod, fmt.Sprintf("input=%q scores %d/10, the FIRST algorithm gives %d/10 (macrovector %s); %d/10 is what it gives when the Modified metrics are left out", s, k, sp.Score10, sp.Macro, lib.Score10))
+				r.Count("known:" + kV4Mod + ":score")
+			default:
+				h.fail("", fmt.Sprintf("v4 score: implementation %d/10, FIRST algorithm %d/10 (macrovector %s, tie=%v; without the Modified metrics %d/10)", k, sp.Score10, sp.Macro, sp.Tie, lib.Score10), s)
+			}
+			if sp.Tie {
+				r.Count("v4:rounding-tie")
+			}
+		}
 		if want := rating(k); ks != "nan" && q.String() != want {
 			h.fail("", fmt.Sprintf("v4 qualitative rating %v for score %d/10, bands say %s", q, k, want), s)
 		}
@@ -450,6 +467,10 @@ func (h *harness) osv3(s string, near bool) {
 				h.fail("", fmt.Sprintf("osv fromCVSS3 gives %s, the vector library rates the base vector %d", out, lib), s)
 			}
 		}
+	}
+	// a string with fewer than eight metrics cannot hold the eight base metrics
+	if n := len(strings.Split(strings.TrimRight(s, "/"), "/")); n < 9 && out != "err" && out != "panic" {
+		h.fail("", fmt.Sprintf("osv fromCVSS3 derives severity %s from a string with %d metrics", out, n-1), s)
 	}
 	r.Op("o3 "+hexOf(s), out, out != "err" || near)
 }
